@@ -373,7 +373,7 @@ def gen_model_raw(rng, *, max_periods=3, allow_stochastic=True, allow_filter=Tru
                 body = ["+", body, ["*", X.c(rng.choice([1, 3, -2])), X.v(x)]]
         body = integralise(body)
         pars = []
-    elif rng.random() < 0.3:      # written as a reduction over a stacked array (not element-wise on columns)
+    elif "asum_utility" in force or rng.random() < 0.3:      # written as a reduction over a stacked array (not element-wise on columns)
         body = ["asum", body, X.c(Fraction(rng.randint(0, 3), 2))]
     add("utility", sorted(X.names_in(body)), body, pars=[p for p in pars if p in X.names_in(body)])
 
